@@ -492,3 +492,95 @@ CONTRACTS["scale.TimeScale.tickMethod@subsecond"] = {
     # below one second per tick: linear millisecond ticks with the step of C13's tick rule
     "ensures": [("millisecond_ticks", "result[1] > 0 and count * result[1] > 0.7 * (extent[1] - extent[0]) and count * result[1] <= 1.75 * (extent[1] - extent[0])")],
 }
+
+
+# ---------------------------------------------------------------------------------------------------------------------
+# C13: the tick generator.  drange is a generator: under A-GEN its result is the list of the values it yields.
+# ap(start, step, k) = start + k * step is kept UNINTERPRETED in code obligations (the product of the integer index and the
+# real step would make every loop obligation non-linear); its unfolding is instantiated at the ground indices that occur,
+# and the closed form is the T3 lemma C13/lemma.ap below.
+# ---------------------------------------------------------------------------------------------------------------------
+def _ap(E, P, ctx, start, step, k):
+    f = E.uf.get("AP")
+    if f is None:
+        f = E.uf["AP"] = z3.Function("AP", z3.RealSort(), z3.RealSort(), z3.IntSort(), z3.RealSort())
+    s, d, kt = start.real(), step.real(), k.t
+    if not getattr(E, "quant_depth", 0):
+        P.assume(f(s, d, z3.IntVal(0)) == s)
+        P.assume(f(s, d, kt + 1) == f(s, d, kt) + d)
+        P.assume(z3.Implies(kt > 0, f(s, d, kt) == f(s, d, kt - 1) + d))
+    return [(P, Num(f(s, d, kt), False))]
+
+
+SPECFUNS["ap"] = _ap
+
+_LISTR = ["list.len.real", "list.elems.real"]
+CONTRACTS["scale.drange"] = {
+    "props": ["C13"], "heap": True, "yields": "real",
+    "params": {"start": "real", "stop": "real", "step": "real"}, "requires": ["step > 0"],
+    "modifies": _LISTR, "allocates": ["list"], "returns": "slist:real",
+    # keyed by ordinal, not by header text: the loop TEST is the semantics here (a changed test must meet this invariant)
+    "loops": {0: {
+        "modifies": _LISTR, "locals": {"r": "real"},
+        "inv": [("list", "yielded is not None and len(yielded) >= 0"),
+                ("accumulated", "r == ap(start, step, len(yielded))"),
+                ("elements", "forall(lambda k: implies(0 <= k < len(yielded), yielded[k] == ap(start, step, k) and yielded[k] < stop))")]}},
+    # (termination is not proved: the variant stop - r is real-valued)
+    "ensures": [("arithmetic_progression", "forall(lambda k: implies(0 <= k < len(result), result[k] == ap(start, step, k)))"),
+                ("below_stop", "forall(lambda k: implies(0 <= k < len(result), result[k] < stop))"),
+                # no value of the progression below stop is missing: the next one is not below stop
+                ("complete", "ap(start, step, len(result)) >= stop"),
+                ("first_is_start", "implies(len(result) > 0, result[0] == start)")],
+}
+
+
+def _lemma_ap():
+    """closed form of the accumulated progression (induction step and base), and what it gives for ticks:
+    consecutive ticks differ by the step, ticks increase, and with start = q0*step, stop = q1*step + step/2 every tick is
+    a multiple of the step that does not exceed q1*step (<= the upper end of the domain)."""
+    AP = z3.Function("AP", z3.RealSort(), z3.RealSort(), z3.IntSort(), z3.RealSort())
+    s, d = z3.Reals("s d")
+    k, q0, q1 = z3.Ints("k q0 q1")
+    return [
+        ("base", z3.ForAll([s, d], z3.Implies(AP(s, d, 0) == s, AP(s, d, 0) == s + 0 * d))),
+        ("step", z3.ForAll([s, d, k], z3.Implies(z3.And(k >= 0, AP(s, d, k) == s + z3.ToReal(k) * d, AP(s, d, k + 1) == AP(s, d, k) + d),
+                                                 AP(s, d, k + 1) == s + z3.ToReal(k + 1) * d))),
+        ("increasing", z3.ForAll([s, d, k], z3.Implies(z3.And(d > 0, k >= 0), s + z3.ToReal(k) * d < s + z3.ToReal(k + 1) * d))),
+        ("multiples_not_beyond_the_last_one",
+         z3.ForAll([d, k, q0, q1], z3.Implies(z3.And(d > 0, z3.ToReal(q0) * d + z3.ToReal(k) * d < z3.ToReal(q1) * d + d / 2),
+                                              z3.And(z3.ToReal(q0) * d + z3.ToReal(k) * d == z3.ToReal(q0 + k) * d,
+                                                     z3.ToReal(q0 + k) * d <= z3.ToReal(q1) * d)))),
+    ]
+
+
+LEMMAS["C13/lemma.ap"] = {"props": ["C13"], "build": _lemma_ap,
+                          "text": "accumulating the step k times from start gives start + k*step; multiples of the step below "
+                                  "floor(hi/step)*step + step/2 do not exceed floor(hi/step)*step"}
+
+
+def _ghost_drange_args(E, P, ctx, args):
+    """names the three numbers handed to the generator: t_start, t_stop, t_step (ghost; no program value depends on them)"""
+    for nm, v in zip(("t_start", "t_stop", "t_step"), args):
+        E.assign_name(P, ctx, nm, v, ())
+
+
+CONTRACTS["scale.d3_scale_linearTicks"] = {
+    "props": ["C13"], "heap": True,
+    "params": {"domain": ["list", "real", "real"], "m": "int"},
+    "requires": _TR_REQ,
+    "modifies": _LISTR, "allocates": ["list"],
+    "ghost": {"before_call:scale.drange": _ghost_drange_args},
+    "ensures": [
+        # the generator is started with the tick range of THIS domain and count (clauses of d3_scale_linearTickRange) ...
+        ("step_positive", "t_step > 0"),
+        ("band", "m * t_step > 0.7 * %s and m * t_step <= 1.75 * %s" % (_SPAN, _SPAN)),
+        ("start_is_first_multiple_inside", "t_start >= %s and t_start - t_step < %s" % (_LO, _LO)),
+        ("stop_is_half_a_step_after_the_last_multiple_inside", "t_stop - t_step * 0.5 <= %s and t_stop + t_step * 0.5 > %s" % (_HI, _HI)),
+        # ... and the ticks are exactly that progression below the stop (drange's contract)
+        ("ticks_are_the_progression", "forall(lambda k: implies(0 <= k < len(result), result[k] == ap(t_start, t_step, k)))"),
+        ("ticks_below_stop", "forall(lambda k: implies(0 <= k < len(result), result[k] < t_stop))"),
+        ("none_missing", "ap(t_start, t_step, len(result)) >= t_stop"),
+        ("first_tick_inside", "implies(len(result) > 0, result[0] >= %s)" % _LO),
+        ("domain_untouched", "domain[0] == old(domain[0]) and domain[1] == old(domain[1])"),
+    ],
+}
